@@ -704,7 +704,7 @@ pub fn run(ctx: &Ctx, replay: Option<&J>) -> i32 {
             }
         }
     }
-    par_for(triples.len(), |i| {
+    par_for_ctx(ctx, triples.len(), |i| {
         let ops = triples[i];
         let t = climb(&plain[..4], &ops);
         check_text(ctx, "precedence-triple", &format!("{} {} {}", op_text(ops[0]), op_text(ops[1]), op_text(ops[2])), &chain_text(&plain_txt[..4], &ops), &t);
@@ -722,7 +722,7 @@ pub fn run(ctx: &Ctx, replay: Option<&J>) -> i32 {
             }
         }
     }
-    par_for(quads.len(), |i| {
+    par_for_ctx(ctx, quads.len(), |i| {
         let ops = quads[i];
         let t = climb(&plain[..5], &ops);
         check_text(ctx, "precedence-quad", "quad", &chain_text(&plain_txt[..5], &ops), &t);
@@ -743,7 +743,7 @@ pub fn run(ctx: &Ctx, replay: Option<&J>) -> i32 {
     }
     let step = if thorough { 1 } else { 3 };
     let combos: Vec<_> = combos.into_iter().step_by(step).collect();
-    par_for(combos.len(), |i| {
+    par_for_ctx(ctx, combos.len(), |i| {
         let (op, p1, q1, p2, q2) = combos[i];
         let l = operand("a", p1, q1);
         let r = operand("b", p2, q2);
@@ -810,13 +810,13 @@ pub fn run(ctx: &Ctx, replay: Option<&J>) -> i32 {
     bases.push(T::bin(BinaryOp::Add, T::num(1.5), T::str("a b")));
     bases.push(T::bin(BinaryOp::Subtract, T::id("a"), T::Neg(Box::new(T::id("b")))));
     bases.push(T::List(vec![T::str("//not a comment"), T::str(", ]")]));
-    par_for(bases.len(), |i| layout_checks(ctx, &bases[i], thorough));
+    par_for_ctx(ctx, bases.len(), |i| layout_checks(ctx, &bases[i], thorough));
     ctx.set("layout_bases", json!(bases.len()));
     ctx.set("generator", json!({"states": stats.states, "transitions": stats.transitions, "complete": stats.complete}));
 
     // ---- (e) identifiers
     let ns = names(thorough);
-    par_for(ns.len(), |i| identifier_checks(ctx, &ns[i]));
+    par_for_ctx(ctx, ns.len(), |i| identifier_checks(ctx, &ns[i]));
     ctx.set("names", json!(ns.len()));
 
     ctx.sample(json!({"minimal": "a + b * c ^ d ?? e", "reference": climb(&plain[..5], &[BinaryOp::Add, BinaryOp::Multiply, BinaryOp::Power, BinaryOp::Coalesce]).full()}));
